@@ -124,6 +124,11 @@ class FileServer(Resource, aiocoap.interfaces.ObservableResource):
         path = request.opt.uri_path
         if any("/" in p or p in (".", "..") for p in path):
             raise InvalidPathError()
+        # An empty segment is only meaningful as the last one (trailing
+        # slash); as the first of several it would make the joined path
+        # absolute, and pathlib then discards the root.
+        if "" in path[:-1]:
+            raise InvalidPathError()
 
         return self.root / "/".join(path)
 
